@@ -215,6 +215,8 @@ class FunGen:
             choices += ["ctor", "ctor", "var", "if", "let", "call", "case"]
         else:
             choices += ["new", "new", "var", "call", "let", "if"]
+        if any(d["ret"] == ty and d["index"] > self.cur and (eff or d["pure"]) for d in self.defs):
+            choices += ["call", "call", "call"]
         if eff:
             choices += ["print", "print"]
             if self.labels:
@@ -466,6 +468,17 @@ class FunGen:
                     body = T("if fuel <= 0 { %s } else { %s }" % (base.at(4), step.at(4)), 3)
             else:
                 body = self.gen(d["ret"], ctx, b, eff)
+                if d["index"] == 0:
+                    # main makes sure that some of the other definitions are actually executed
+                    for other in r.sample(self.defs[1:], min(2, len(self.defs) - 1)):
+                        sig = other["params"]
+                        args, _ = self.args_for(sig[1:] if other["loop"] else sig, ctx, 6, False)
+                        if args is None:
+                            continue
+                        if other["loop"]:
+                            args = [str(r.choice([0, 1, 2, 3]))] + args
+                        pn, rn = self.fresh_name(ctx)
+                        body = T("let %s: %s = %s(%s); %s" % (rn, other["ret"], other["name"], ", ".join(args), body.at(4)), 3)
             ps = ", ".join("%s %s %s" % (rn, ":cns" if c == "cns" else ":", t) for n, c, t, rn in d["params"])
             texts.append("def %s(%s): %s { %s }" % (d["name"], ps, d["ret"], body.at(4)))
         return self.decl_text() + "\n" + "\n".join(texts) + "\n"
